@@ -5,7 +5,7 @@ import progen
 
 ID = 'C01'
 LEVEL = 'proof'
-LEAN_TARGETS = ['BareProofs.C01']
+LEAN_TARGETS = ['BareProofs.C01', 'BareProofs.C01Erase']
 DRIVER = 'drv_c01'
 DRIVER_ROOT = 'Drv.C01'
 GEN = ['Consts']
@@ -13,6 +13,9 @@ THEOREMS = [
     'C01.parseLines_render', 'C01.parse_rejects_ill_nested', 'C01.wellNested_of_parse_ok',
     'C01.lower_exact', 'C01.lower_exact_body', 'C01.run_lowered_eq_runT', 'C01.execute₀_lowered',
     'C01.parse_then_run', 'C01.while_retests_after_body', 'C01.while_continue_actual',
+    'C01.ticked_erasure', 'C01.ticked_erasure_forward', 'C01.ticked_erasure_converse', 'C01.termination_iff',
+    'C01.ticked_erasure_budget', 'C01.parse_exec_structured', 'C01.parse_exec_structured_budget',
+    'C01.Tiny.while_continue_counterexample',
 ]
 ASSUMPTIONS = [
     'expression evaluation is shared between the reference reading and the implementation (C01 is about control flow; operators are C03)',
@@ -22,14 +25,18 @@ LEVEL_TEXT = ('Theorems, for structured programs of any depth and size and any h
               'parse_script computes exactly the recursive lowering and rejects exactly the ill-nested programs; (T2) the jump machine on the '
               'lowered code equals the ticked structured big-step semantics as a function of fuel, counter, locals and state (return value, '
               'every effect, statement count, divergence, budget exhaustion preserved), globally and for function bodies; composed as '
-              'parse_then_run. The Lean lowering (spec and mirror), machine and structured semantics are tied to parser.py/runtime.py by '
+              'parse_then_run; (T3) ticks and hidden loop variables erase to the plain source-level big-step reading execS in both '
+              'directions (termination included); (T4) parse_exec_structured composes T1, C08.cache_transparent, T2 and T3 for '
+              'Machine.execute. The Lean lowering (spec and mirror), machine and structured semantics are tied to parser.py/runtime.py by '
               'differential correspondence on grammar-generated programs; an independent Python big-step reading of the source is the '
               'oracle run against the implementation. Known finding F7 (continue inside while skips the condition test) is what the model '
               'encodes (while_continue_actual) and what the oracle reports.')
 LEVEL_NOTE = ('Trusted: Lean kernel; harness (progen.py generator/renderer/reference interpreter, fw.py). Expression evaluation is shared by '
-              'both sides of the theorems (abstract host) and by oracle and implementation (C03 covers operators). The erasure of ticks and '
-              'hidden for-variables to the plain source reading (T3) is a separate module; until it is complete that step is carried by the '
-              'reference-interpreter oracle (translation-validation strength). Python recursion limit and memory are outside the model.')
+              'both sides of the theorems (abstract host) and by oracle and implementation (C03 covers operators). T3/T4 (ticked_erasure, '
+              'parse_exec_structured) relate the machine run of the parsed program to the plain source-level reading execS (no ticks, no '
+              'hidden for-variables, conditions re-tested before every iteration) under the decidable hypotheses ProgOK (well nested, no '
+              'raw jumps/includes, no reserved identifiers, no continue-in-while = F7) and host laws TruthyBool, HostNoReserved. '
+              'Python recursion limit and memory are outside the model; the rational number model has no negative zero.')
 
 
 def known_f7(w):
@@ -83,23 +90,37 @@ def streams(ctx):
     st = ctx.stream('exec', 'the same programs x initial globals of all value kinds, maxStatements=400: execute_script(parse_script) vs '
                             'Lean jump machine on the lowered code vs Lean ticked structured semantics; oracle: independent Python '
                             'big-step reading of the source; non-trivial = terminates without error and runs a loop')
+    impls = [progen.run_impl(model, g, max_statements=400) for (prog, g, _), model in zip(cases, models)]
     reqs = []
-    for (prog, g, _), model in zip(cases, models):
+    slot = []
+    for (prog, g, _), model, impl in zip(cases, models, impls):
         wg = progen.wire_globals(g)
+        base = len(reqs)
         reqs.append({'op': 'exec', 'script': progen.canon_script(model), 'globals': wg, 'max': 400, 'fuel': 5000})
         reqs.append({'op': 'execT', 'prog': prog, 'globals': wg, 'max': 400, 'fuel': 5000})
+        # the pure reading has no statement budget: only ask for it when the implementation run completed (<= 400 statements)
+        pure = 'error' not in impl and 'hostexc' not in impl and not progen.has_while_continue(prog)
+        if pure:
+            reqs.append({'op': 'execS', 'prog': prog, 'globals': wg, 'fuel': 1200})
+        slot.append((base, pure))
     resps = ctx.driver.batch(reqs)
     for ix, ((prog, g, stats), model) in enumerate(zip(cases, models)):
         text = '\n'.join(progen.render(prog))
-        impl = progen.run_impl(model, g, max_statements=400)
-        m_exec = progen.canon_model_out(resps[2 * ix])
-        m_t = progen.canon_model_out(resps[2 * ix + 1])
+        impl = impls[ix]
+        base, pure = slot[ix]
+        m_exec = progen.canon_model_out(resps[base])
+        m_t = progen.canon_model_out(resps[base + 1])
+        m_s = progen.canon_model_out(resps[base + 2]) if pure else None
         tags = ['error' if 'error' in impl else 'ok']
         if 'hostexc' in impl:
             tags.append('hostexc')
         st.case([text, g], nontrivial=('error' not in impl and any(k in stats for k in ('while', 'for'))), tags=tags)
         ctx.compare('exec', [text, g], impl, m_exec)
         ctx.compare('execT', [text, g], impl, m_t)
+        # the plain source-level reading of the Lean model (T3/T4): same result, log and user-visible globals whenever the
+        # implementation run is not cut by the budget and the program has no `continue` inside `while` (F7)
+        if m_s is not None and 'oof' not in m_s:
+            ctx.compare('execS', [text, g], progen.strip_hidden(impl), progen.strip_hidden(m_s))
         # the property's own oracle: structured reading vs implementation
         if 'error' not in impl and 'hostexc' not in impl:
             ref = progen.run_reference(prog, g)
